@@ -611,6 +611,8 @@ def finding_id(c, impl_obs, kind):
         return f"index-obligation:{c['fn']}"
     if c["kind"] == "idx":
         return f"index-call:{c['f']}"
+    if c["kind"] == "axes":
+        return "axes-of-mapspec-list"
     # a ':' axis in a non-first output accepted by the constructor / parser
     if c["kind"] in ("parse", "build") and isinstance(impl_obs, list) and impl_obs and impl_obs[0] == "ok":
         return "colon-in-later-output"
